@@ -354,11 +354,11 @@ class Extractor:
             elif word == 'nested-end':
                 cur_scope = None
                 target = None
-            elif word == 'rewrite':
+            elif word in ('rewrite', 'rewrite?'):
                 m = re.match(r'(\w+)\s+' + _BT + r'\s*=>\s*' + _BT + r'\s*$', rest)
                 if not m:
                     raise ValueError('%s:%d: bad rewrite directive' % (tname, ln))
-                cur.edits.append(dict(op='rewrite', rule=m.group(1), frm=m.group(2).replace('\\n', '\n'), to=m.group(3).replace('\\n', '\n'), scope=cur_scope))
+                cur.edits.append(dict(op='rewrite', rule=m.group(1), frm=m.group(2).replace('\\n', '\n'), to=m.group(3).replace('\\n', '\n'), scope=cur_scope, optional=(word == 'rewrite?')))
             elif word == 'attr':
                 cur.attrs.append(rest.strip())
             elif word == 'ret':
@@ -703,7 +703,12 @@ class Extractor:
             elif op == 'rewrite':
                 if spec.external and e['rule'] not in ('RET', 'SIG'):
                     continue
-                m = find_anchor(seg, e['frm'], None)
+                try:
+                    m = find_anchor(seg, e['frm'], None)
+                except LostAnchor:
+                    if e.get('optional'):
+                        continue   # the construct this rewrite exists for is gone; verify the text as it is
+                    raise
                 self.log.rw(e['rule'], rel, line0 + text.count('\n', 0, lo + m.start()), norm(e['frm']), norm(e['to']))
                 edits.append((lo + m.start(), m.end() - m.start(), e['to'], False))
         # rule R7: `fn f(mut self, ..) { B }` -> `fn f(self, ..) { let mut this = self; B[self := this] }`
